@@ -767,8 +767,48 @@ fn run_parked_subscribe(sink: &mut Sink) {
     }
 }
 
+/// async flavour, oracle only: a subscriber polled as a stream while a write guard is held is parked in the lock's wait queue
+/// with the stream poll's waker; a `next_ref_now()` / `next_now()` / `next_ref()` future of the same subscriber that is polled and
+/// cancelled in the meantime must not cost it that registration — the release of the guard wakes the stream's waker (C16, C02)
+fn run_cancelled_under_guard(sink: &mut Sink) {
+    for which in 0..3 {
+        sink.case(&format!("XCG:{which}"));
+        let ob: SharedObservable<T, AsyncLock> = SharedObservable::new_async(T(1));
+        let mut s = now(ob.subscribe()).expect("subscribe blocked");
+        let mut g = now(ob.write()).expect("write blocked");
+        let (fw, w) = flag_waker();
+        { let mut cx = Context::from_waker(&w);
+          if !matches!(Pin::new(&mut s).poll_next(&mut cx), Poll::Pending) { sink.oracle_fail("C16", "a subscriber polled while a write guard is held is not Pending"); } }
+        {
+            let (_f2, w2) = flag_waker();
+            let mut cx2 = Context::from_waker(&w2);
+            let pending = match which {
+                0 => { let mut f = Box::pin(s.next_ref_now()); matches!(f.as_mut().poll(&mut cx2), Poll::Pending) }
+                1 => { let mut f = Box::pin(s.next_now()); matches!(f.as_mut().poll(&mut cx2), Poll::Pending) }
+                _ => { let mut f = Box::pin(s.next_ref()); matches!(f.as_mut().poll(&mut cx2), Poll::Pending) }
+            };
+            if !pending { sink.oracle_fail("C16", "a call on a subscriber completed while a write guard is held"); }
+        }
+        ObservableWriteGuard::set(&mut g, T(5));
+        drop(g);
+        // `next_ref()` polls the subscriber's own lock future with ITS waker (the stream registration is superseded): only the
+        // other two calls must leave the stream's registration alone
+        if which < 2 && !fw.0.load(Ordering::SeqCst) {
+            sink.oracle_fail("C16,C02", &format!("a subscriber was polled as a stream under a write guard, then a {} future of it was polled and cancelled; the release of the guard (after a set) does not wake the stream's waker", if which == 0 { "next_ref_now()" } else { "next_now()" }));
+        }
+        let (_f3, w3) = flag_waker();
+        let mut cx3 = Context::from_waker(&w3);
+        match Pin::new(&mut s).poll_next(&mut cx3) {
+            Poll::Ready(Some(t)) if t.0 == 5 => {}
+            other => sink.oracle_fail("C16,C01", &format!("after the guard was released the stream answers {:?}, the value 5 was set", other.map(|o| o.map(|t| t.0)))),
+        }
+        sink.line(&format!("xcf cancelled {which}"), "ok");
+        sink.nontrivial();
+    }
+}
+
 fn run_cross(sink: &mut Sink, asyncf: bool) {
-    if !asyncf { run_parked_subscribe(sink); }
+    if !asyncf { run_parked_subscribe(sink); } else { run_cancelled_under_guard(sink); }
     let per_sub = if asyncf { 2 } else { 1 }; // async subscribers hold two references (known finding D8)
     macro_rules! scen { ($new:expr, $flav:ty, $sub:expr, $tag:expr) => {{
         for variant in 0..8 {
